@@ -134,7 +134,7 @@ def _branch_def(ctx, f, name_node, branch):
 def _len_b(ctx, f, e, branch, depth=0):
     """Length of a list expression as a linear form over opaque integer
     atoms, evaluated under one branch of the depth choice."""
-    if depth > 8:
+    if depth > 16:
         return None
     if isinstance(e, ast.Name):
         d = _branch_def(ctx, f, e, branch)
@@ -166,7 +166,7 @@ def _len_b(ctx, f, e, branch, depth=0):
 
 
 def _int_b(ctx, f, e, branch, depth=0):
-    if depth > 8:
+    if depth > 16:
         return None
     if isinstance(e, ast.Constant) and isinstance(e.value, int):
         return {"": e.value}
@@ -185,6 +185,20 @@ def _int_b(ctx, f, e, branch, depth=0):
         if d is not None:
             return _int_b(ctx, f, d, branch, depth + 1)
         return {"$" + e.id: 1}
+    if isinstance(e, ast.Call) and hasattr(e, "_parent"):
+        # a helper that makes the same two-way choice: read it under this branch
+        from .. import symcase
+        tests = ("%sin%s.line_order" % (f.params[1], f.params[0]),
+                 "%sin%s.line_order.keys()" % (f.params[1], f.params[0]))
+
+        def decide(t_):
+            if isinstance(t_, ast.UnaryOp) and isinstance(t_.op, ast.Not):
+                d_ = decide(t_.operand)
+                return None if d_ is None else not d_
+            return branch if symcase.norm(t_) in tests else None
+        res = symcase.Evaluator(ctx, decide).inline_call(f, e, {})
+        if res is not None:
+            return _int_b(ctx, f, res, branch, depth + 1)
     t = text(e).replace(" ", "")
     # the two functions name their parameters alike; normalise cls / rank
     t = t.replace(f.params[0] + ".", "cls.").replace("[%s]" % f.params[1], "[rank]")
@@ -315,6 +329,9 @@ def r2_flush(ctx):
                 a0.func.attr == "join" and a0.args:
             lst = a0.args[0]
             if isinstance(lst, ast.Name):
+                m_ = pat.resolve_list_map(pat.list_maps(wt), lst.id)
+                if m_ is not None and text(m_[0]) == wfb:
+                    okw = True      # one string per buffered row, in order
                 lst = pat.single_def(ctx, wt, lst)
             if isinstance(lst, (ast.ListComp, ast.GeneratorExp)) and \
                     len(lst.generators) == 1 and not lst.generators[0].ifs and \
